@@ -243,6 +243,7 @@ type vNode struct {
 	size  int64
 	data  string
 	mtime time.Time
+	mode  os.FileMode
 }
 
 // vSnapshot lists every entry below root (root excluded), sorted by path.
@@ -262,7 +263,7 @@ func vSnapshot(fs afero.Fs, root string) []vNode {
 			if dir == "/" {
 				p = "/" + fi.Name()
 			}
-			n := vNode{path: p, dir: fi.IsDir(), size: fi.Size(), mtime: fi.ModTime()}
+			n := vNode{path: p, dir: fi.IsDir(), size: fi.Size(), mtime: fi.ModTime(), mode: fi.Mode()}
 			if !fi.IsDir() {
 				if b, err := afero.ReadFile(fs, p); err == nil {
 					n.data = string(b)
@@ -284,6 +285,19 @@ func vSameTree(a, b []vNode) bool {
 	}
 	for i := range a {
 		if a[i].path != b[i].path || a[i].dir != b[i].dir || a[i].data != b[i].data {
+			return false
+		}
+	}
+	return true
+}
+
+// vSameTreeStrict also compares permissions and modification times.
+func vSameTreeStrict(a, b []vNode) bool {
+	if !vSameTree(a, b) {
+		return false
+	}
+	for i := range a {
+		if a[i].mode != b[i].mode || !a[i].mtime.Equal(b[i].mtime) {
 			return false
 		}
 	}
